@@ -38,6 +38,14 @@ class _Return(Exception):
         self.v = v
 
 
+class _Break(Exception):
+    pass
+
+
+class _Continue(Exception):
+    pass
+
+
 class PtsDim:
     """Marker for 'the extent of the point/cell axes' in a shape tuple."""
     def __repr__(self):
@@ -558,10 +566,36 @@ class Interp:
                 it = it.skv_iter()
             if not isinstance(it, (list, tuple, range)):
                 raise Unsupported("loop over non-concrete iterable", st)
+            broke = False
             for v in it:
                 self.assign(st.target, v, env, module)
-                self.exec_block(st.body, env, module)
-            self.exec_block(st.orelse, env, module)
+                try:
+                    self.exec_block(st.body, env, module)
+                except _Continue:
+                    continue
+                except _Break:
+                    broke = True
+                    break
+            if not broke:
+                self.exec_block(st.orelse, env, module)
+            return
+        if isinstance(st, ast.Continue):
+            raise _Continue()
+        if isinstance(st, ast.Break):
+            raise _Break()
+        if isinstance(st, ast.While):
+            n = 0
+            while self.truth(self.eval(st.test, env, module), st.test):
+                n += 1
+                if n > 10000:
+                    raise Unsupported("while loop does not terminate on "
+                                      "the abstract values", st)
+                try:
+                    self.exec_block(st.body, env, module)
+                except _Continue:
+                    continue
+                except _Break:
+                    break
             return
         if isinstance(st, ast.Expr):
             if isinstance(st.value, ast.Constant):
